@@ -120,7 +120,7 @@ pub fn gen_from_seed(gseed: u64, with_bug: bool, r: &mut Rng, scale: usize) -> B
             scale
         } else {
             match b {
-                "deep-nesting" => *r.pick(&[2usize, 10, 100, 1200, 3000]),
+                "deep-nesting" | "deep-nesting-closed" => *r.pick(&[2usize, 10, 100, 1200, 3000]),
                 "many-layers" => *r.pick(&[10usize, 300, 3000]),
                 "many-frames-high-layer" => *r.pick(&[2usize, 20]),
                 "many-tags" => *r.pick(&[10usize, 1000]),
@@ -582,8 +582,12 @@ fn special_items(ctx: &Ctx, prop: &str) -> Vec<(String, usize)> {
         }
         _ => {
             // C04 / C05: long and deep sequences up to the exploration size cap
-            for n in if q { vec![500usize, 3000, 9000] } else { vec![500, 3000, 9000, 30_000, 65_536] } {
+            // (the deepest ones exceed the random-search size cap on purpose: they load in milliseconds)
+            for n in if q { vec![500usize, 3000, 9000, 65_536] } else { vec![500, 3000, 9000, 30_000, 65_536] } {
                 v.push(("deep-nesting".into(), n));
+            }
+            for n in if q { vec![3000usize, 30_000, 65_534] } else { vec![3000, 20_000, 30_000, 65_534] } {
+                v.push(("deep-nesting-closed".into(), n));
             }
             for n in if q { vec![3000usize] } else { vec![3000, 30_000, 65_536] } {
                 v.push(("many-layers".into(), n));
@@ -623,7 +627,7 @@ fn special_items(ctx: &Ctx, prop: &str) -> Vec<(String, usize)> {
                 }
             }
             for b in spec::BUGS {
-                if !matches!(*b, "deep-nesting" | "many-layers" | "many-tags" | "many-frames-high-layer" | "deflate-bomb" | "tilemap-huge-extent" | "link-chain" | "bomb-with-links" | "tilemap-bomb-with-links" | "many-palette-packets" | "chunk-size-boundary" | "zlib-split-a" | "zlib-split-b" | "palette-shift-a" | "palette-shift-b") {
+                if !matches!(*b, "deep-nesting" | "deep-nesting-closed" | "many-layers" | "many-tags" | "many-frames-high-layer" | "deflate-bomb" | "tilemap-huge-extent" | "link-chain" | "bomb-with-links" | "tilemap-bomb-with-links" | "many-palette-packets" | "chunk-size-boundary" | "zlib-split-a" | "zlib-split-b" | "palette-shift-a" | "palette-shift-b") {
                     for _ in 0..if q { 2 } else { 12 } {
                         v.push((b.to_string(), 1));
                     }
